@@ -249,6 +249,32 @@ def ob_insert_exception_bytes(j: int, latin: bool) -> bool:
         return t(e=ValueError(b)) == want and t(e=ValueError(s)) == want
 
 
+T_ALLB = {enc: [HTML(src, encoding=enc) for src in ('<dtml-var a><dtml-var b>', '<dtml-var a><dtml-if one><dtml-var b></dtml-if>', '<dtml-in seq><dtml-var a><dtml-var b></dtml-in>',
+                                                    '<dtml-var a>&dtml-b;', '<dtml-var a><dtml-var b><dtml-var a>')] for enc in ('utf-8', 'latin-1')}
+for _l in T_ALLB.values():
+    for _t in _l:
+        _t.cook()
+
+
+def ob_all_bytes_pieces(j: int, k: int, latin: bool) -> bool:
+    """whenever a rendering consists of more than one piece the result is text - also when every piece is a bytes value"""
+    s1, s2 = POOL[pick(j, len(POOL))], POOL[pick(k, len(POOL))]
+    enc = 'latin-1' if latin else 'utf-8'
+    if not s1 or not s2:
+        return True            # an empty value contributes no piece: a single-piece rendering may stay bytes
+    with NoTracing():
+        try:
+            b1, b2 = s1.encode(enc), s2.encode(enc)
+        except UnicodeEncodeError:
+            return True
+        wants = [s1 + s2, s1 + s2, s1 + s2, s1 + ref_escape(s2), s1 + s2 + s1]
+        for t, want in zip(T_ALLB[enc], wants):
+            out = t(a=b1, b=b2, one=1, seq=[1])
+            if type(out) is not str or out != want:
+                return False
+        return True
+
+
 def explain(obname, args):
     return ''
 
@@ -272,3 +298,5 @@ OBLIGATIONS.append(Ob('insert_values', ob_insert_values, ['0 <= kind <= 3', '0 <
 OBLIGATIONS.append(Ob('ustr_str_method', ob_ustr_str_method, ['len(s) <= 2', '0 <= kind <= 3'], timeout=tier(250, 900), data='s any str len <= 2', selectors='__str__ returning str / bytes / int; plain str'))
 OBLIGATIONS.append(Ob('ustr_exceptions', ob_ustr_exceptions, ['0 <= j < %d' % len(POOL), '0 <= kind <= 6', '0 <= n < 5'], timeout=tier(250, 900), data='message picked from the text pool (exception constructors are C code: a symbolic str would be realised), int picked from %r' % NUMS, selectors='exceptions with 0/1/2 args, bytes / object messages, custom __str__'))
 OBLIGATIONS.append(Ob('insert_exception_bytes', ob_insert_exception_bytes, ['0 <= j < %d' % len(POOL)], timeout=tier(200, 600), data='-', selectors='exception with bytes message inserted plainly / entity / html_quote; dtml-raise message'))
+OBLIGATIONS.append(Ob('all_bytes_pieces', ob_all_bytes_pieces, ['0 <= j < %d' % len(POOL), '0 <= k < %d' % len(POOL)], timeout=tier(250, 900), data='-',
+                      selectors='renderings whose pieces are all bytes values (no literal text), top level / if / in / entity; two pool texts, utf-8 and latin-1'))
